@@ -220,6 +220,10 @@ def robustness(part: str, res: Dict[str, Any], tier: str) -> None:
 
 # ---------------------------------------------------------------- round trip
 
+# partial runs: the inventory lists the visible objects of the subjects given (each once), and nothing that is hidden - whatever the subject's place
+SUBJECT_VARIANTS: List[List[str]] = [['--html-subject', 'pk.a'], ['--html-subject', 'pk.a.A', '--html-subject', 'pk.b'], ['--privacy', 'HIDDEN:pk.a', '--html-subject', 'pk.a.A'],
+                                     ['--privacy', 'HIDDEN:pk.a.A', '--html-subject', 'pk.a.A', '--html-subject', 'pk.b'], ['--html-subject', 'pk', '--html-subject', 'pk.a'],
+                                     ['--html-subject', 'pk.a', '--html-subject', 'pk.a'], ['--privacy', 'PRIVATE:pk.a', '--html-subject', 'pk.a']]
 VARIANTS: List[List[str]] = [['--project-name', 'My\nProject # x', '--project-version', '1.0\n# 2'], [], ['--privacy', 'HIDDEN:pk.a.A', '--privacy', 'PRIVATE:pk.b'], ['--privacy', 'HIDDEN:pk.sub', '--privacy', 'PUBLIC:pk.a._P']]
 
 
@@ -241,7 +245,8 @@ def roundtrip(feats: Sequence[str], extra: Sequence[str], res: Dict[str, Any]) -
             expected[o.fullName()] = o.url
             for c in o.contents.values():
                 walk(c)
-        for root in s.rootobjects:
+        subjects = [extra[i + 1] for i, a in enumerate(extra) if a == '--html-subject']
+        for root in ([s.allobjects[x] for x in subjects if x in s.allobjects] if subjects else s.rootobjects):
             walk(root)
         inv, msgs, err = load(data, 'http://base/objects.inv')
         if err:
@@ -352,7 +357,7 @@ def run_job(job: Any, tier: str) -> Dict[str, Any]:
     if job[0] == 'robust':
         robustness(job[1], res, tier)
     elif job[0] == 'rt':
-        for v in VARIANTS:
+        for v in VARIANTS + SUBJECT_VARIANTS:
             roundtrip(job[1], v, res)
     else:
         _, f, t = job
